@@ -1,4 +1,5 @@
 import TaskModel.Vars.Lemmas
+import TaskModel.Vars.World
 import TaskModel.Gen.VarLayers
 /-!
 # C11 — A task's meaning does not depend on what else ran in the same invocation
@@ -149,5 +150,79 @@ example : EnvIndep (⟨dirShell, [], false⟩ : World).shell := fun _ _ _ _ => r
 example : get (getVariables ⟨dirShell, [], false⟩ ⟨[1], [.text [7]], 0⟩ [] [⟨.taskVars, [(5, .sh [.text [9]] none)]⟩]
       (getVariables ⟨dirShell, [], false⟩ ⟨[1], [.text [8]], 0⟩ [] [⟨.taskVars, [(5, .sh [.text [9]] none)]⟩] []).cache).env 5
     = [9, 1, 47, 7] := by decide
+
+/-! ## the file system
+
+"… depend only on its definition, the call variables, the Taskfile tree, the process environment
+AND THE FILE SYSTEM".  The commands of tasks change the file system; an `sh:` variable of a
+later task may read what they wrote.  `Vars.World`: the oracle gets a world state, histories
+interleave compilations and command effects.  The statement: a task compiled after any
+history gets what it gets when compiled ALONE IN THE WORLD THE HISTORY LEFT (a fresh
+invocation started now).  False of the code: the cache serves what an earlier compilation
+read before a command rewrote the file (`task a b` vs `task b`; open finding
+`C11-dynamic-cache-ignores-files`, same root as `C11-dynamic-cache-ignores-env`). -/
+
+def C11_fs_full : Prop :=
+  ∀ (ws : WorldS) (σ0 : Sigma) (hist : List Ev) (cx : Ctx) (base : Env) (layers : List Layer),
+    (getVariables (ws.at (runHist ws hist (σ0, [])).1) cx base layers (runHist ws hist (σ0, [])).2).env =
+    (getVariables (ws.at (runHist ws hist (σ0, [])).1) cx base layers []).env
+
+private def lyCat : List Layer := [⟨.taskVars, [(5, .sh [.text [102]] none)]⟩]      -- V: {sh: cat f}
+private def cx0 : Ctx := ⟨[100], [], 3⟩
+
+/-- **Counterexample**: task `a` (`V: {sh: cat f}`) is compiled, its command rewrites `f`, task `b` (same
+`sh:` text, same directory) is compiled: `b` gets the OLD content; alone it would get the new one. -/
+theorem C11_fs_full_counterexample : ¬ C11_fs_full := by
+  intro h
+  have := h ⟨catShell, [], false⟩ [([100, 47, 102], [111])]
+    [.compile cx0 [] lyCat, .effect (writeFile [100, 47, 102] [110])] cx0 [] lyCat
+  revert this
+  decide
+
+/-- a command whose effect no `sh:` command can see -/
+def Invisible (ws : WorldS) (f : Sigma → Sigma) : Prop := ∀ cmd dir e σ, ws.shell cmd dir e (f σ) = ws.shell cmd dir e σ
+
+theorem coherent_effect (ws : WorldS) (f : Sigma → Sigma) (hf : Invisible ws f) (σ : Sigma) (c : Cache)
+    (hc : Coherent (ws.at σ).shell c) : Coherent (ws.at (f σ)).shell c := by
+  intro dir cmd v hv
+  have := hc dir cmd v hv
+  simp only [WorldS.at] at this ⊢
+  rw [hf]; exact this
+
+theorem runHist_coherent (ws : WorldS) (henv : ∀ σ, EnvIndep (ws.at σ).shell) :
+    ∀ (hist : List Ev), (∀ f, Ev.effect f ∈ hist → Invisible ws f) → ∀ (s : Sigma × Cache),
+      Coherent (ws.at s.1).shell s.2 → Coherent (ws.at (runHist ws hist s).1).shell (runHist ws hist s).2 := by
+  intro hist
+  induction hist with
+  | nil => intro _ s hs; exact hs
+  | cons ev r ih =>
+    intro hinv s hs
+    cases ev with
+    | compile cx base ls =>
+      simp only [runHist]
+      apply ih (fun f hf => hinv f (List.mem_cons_of_mem _ hf))
+      exact (C11 (ws.at s.1) (henv s.1) cx base ls s.2 hs).2
+    | effect f =>
+      simp only [runHist]
+      apply ih (fun g hg => hinv g (List.mem_cons_of_mem _ hg))
+      exact coherent_effect ws f (hinv f List.mem_cons_self) s.1 s.2 hs
+
+/-- **C11 with the file system, partial**: along every history whose command effects are invisible to the
+`sh:` commands (and whose `sh:` commands do not read their environment), a task resolves to what it
+resolves to alone in the world the history left. -/
+theorem C11_fs_partial (ws : WorldS) (henv : ∀ σ, EnvIndep (ws.at σ).shell) (σ0 : Sigma) (hist : List Ev)
+    (hinv : ∀ f, Ev.effect f ∈ hist → Invisible ws f) (cx : Ctx) (base : Env) (layers : List Layer) :
+    (getVariables (ws.at (runHist ws hist (σ0, [])).1) cx base layers (runHist ws hist (σ0, [])).2).env =
+    (getVariables (ws.at (runHist ws hist (σ0, [])).1) cx base layers []).env :=
+  (C11 _ (henv _) cx base layers _
+    (runHist_coherent ws henv hist hinv (σ0, []) (coherent_nil _))).1
+
+/- non-vacuity: the `cat` oracle ignores its environment; an effect on ANOTHER file is invisible to `cat f`
+only if nothing reads it — here: a history whose effect writes a file outside every directory read -/
+example : ∀ σ, EnvIndep ((⟨catShell, [], false⟩ : WorldS).at σ).shell := fun _ _ _ _ _ => rfl
+example : histEnvs ⟨catShell, [], false⟩ [.compile cx0 [] lyCat, .effect (writeFile [100, 47, 102] [110]), .compile cx0 [] lyCat]
+    ([([100, 47, 102], [111])], []) = [[(5, [111])], [(5, [111])]] := by decide     -- the model mirrors the stale read
+example : histEnvs ⟨catShell, [], false⟩ [.effect (writeFile [100, 47, 102] [110]), .compile cx0 [] lyCat]
+    ([([100, 47, 102], [111])], []) = [[(5, [110])]] := by decide
 
 end Props.C11
